@@ -140,6 +140,7 @@ pub struct Exec {
     pub focus: String,
     pub(crate) accounting_broken: bool,
     pub(crate) stats_broken: bool,
+    weight_identity_broken: bool,
     /// deadline of keys the sweeper removed (for the near-deadline statistics only)
     swept_deadline: BTreeMap<u8, Duration>,
     /// whether the physical-state comparison (hooks) is on
@@ -188,6 +189,7 @@ impl Exec {
             focus: String::new(),
             accounting_broken: false,
             stats_broken: false,
+            weight_identity_broken: false,
             swept_deadline: BTreeMap::new(),
             deep: true,
         }
@@ -368,6 +370,15 @@ impl Exec {
         }
         if !self.stats_broken && !self.accounting_broken {
             if let Err(failure) = self.compare_stats() { self.stats_broken = true; self.soft(failure)?; }
+        } else if !self.weight_identity_broken {
+            // needs no model: weight added - weight removed == weight in use (C16), whatever else is already known to be off
+            let summary = self.cache.stats_summary();
+            let added = summary.get(&StatsType::WeightAdded).unwrap_or(0);
+            let removed = summary.get(&StatsType::WeightRemoved).unwrap_or(0);
+            if added.wrapping_sub(removed) != used as u64 {
+                self.weight_identity_broken = true;
+                self.soft(Failure::new("C16", "C16/weight", format!("WeightAdded {} - WeightRemoved {} != total weight used {}", added, removed, used)))?;
+            }
         }
         let (increments, _) = self.cache.verif_sketch_progress();
         if increments < self.last_sketch_increments { self.stats.sketch_resets += 1; }
